@@ -19,13 +19,16 @@ env.pop('PYTHONPATH', None)
 cmd = ['/venv/bin/python', '-m', 'pytest', '-ra', '-q', '-p', 'no:cacheprovider', '--timeout=900',
        '--continue-on-collection-errors', '--junitxml=' + xmlp]
 passed = set()
-for attempt in range(3):
+for attempt in range(6):
     p = subprocess.run(cmd, cwd=repo, env=env, stdout=subprocess.PIPE, stderr=subprocess.STDOUT, universal_newlines=True)
     for tc in ET.parse(xmlp).getroot().iter('testcase'):
         if not any(ch.tag in ('failure', 'error', 'skipped') for ch in tc):
             passed.add('%s::%s' % (tc.get('classname'), tc.get('name')))
     if not (want - passed):
         break
+    # rerun only the modules of the tests still missing
+    mods = sorted(set(t.split('::')[0].rsplit('.', 1)[0].replace('.', '/') + '.py' for t in (want - passed)))
+    cmd = cmd[:9] + ['--junitxml=' + xmlp] + mods
     # a test that passes in any of up to three runs counts (timing-sensitive tests flake under machine load)
 os.remove(xmlp)
 missing = sorted(want - passed)
